@@ -854,6 +854,31 @@ Varable failures: {var_failed}
         outf.updatemeta()
         return outf
 
+    def stack(self, other, stackdim):
+        """
+        Wrapper PseudoNetCDFFile.stack that corrects NLAYS, VGLVLS, NVARS,
+        VAR, and TFLAG meta-data according to the ioapi format
+
+        Parameters
+        ----------
+        see PseudoNetCDFFile.stack
+        """
+        from collections.abc import Iterable
+        outf = PseudoNetCDFFile.stack(self, other, stackdim)
+        if stackdim == 'LAY' and hasattr(self, 'VGLVLS'):
+            if isinstance(other, Iterable):
+                others = list(other)
+            else:
+                others = [other]
+            # level edges of the stacked layers: the first file's edges
+            # followed by the upper edges of each additional file
+            vglvls = [np.asarray(self.VGLVLS)]
+            for tmpf in others:
+                vglvls.append(np.asarray(tmpf.VGLVLS)[1:])
+            outf.VGLVLS = np.concatenate(vglvls)
+        outf.updatemeta()
+        return outf
+
     def renameVariables(self, inplace=False, copyall=True, **newkeys):
         """
         Wrapper PseudoNetCDFFile.renameVariables that replaces the old
